@@ -64,6 +64,27 @@ inline SimValue simParseValue(const std::string &tok)
         }
         break;
     }
+    case 'f': {
+        // family-hex,pointSize,weight,<italic bold underline strikeOut kerning as 0/1>
+        std::vector<std::string> parts;
+        size_t pos = 0;
+        for (;;) {
+            size_t c = body.find(',', pos);
+            parts.push_back(body.substr(pos, c == std::string::npos ? std::string::npos : c - pos));
+            if (c == std::string::npos) break;
+            pos = c + 1;
+        }
+        if (parts.size() != 4 || parts[3].size() != 5) simAbort("driver", ("bad font token " + tok).c_str());
+        v.f.setFamily(QString(simUnhex(parts[0])));
+        v.f.setPointSize(std::stoi(parts[1]));
+        v.f.setWeight(std::stoi(parts[2]));
+        v.f.setItalic(parts[3][0] == '1');
+        v.f.setBold(parts[3][1] == '1');
+        v.f.setUnderline(parts[3][2] == '1');
+        v.f.setStrikeOut(parts[3][3] == '1');
+        v.f.setKerning(parts[3][4] == '1');
+        break;
+    }
     case 'o':
         if (body != "null") {
             auto &m = SimWorld::get().byName;
